@@ -17,7 +17,7 @@ from .. import rig as R, ref, gen, dump, hist, qcore
 from ..orch import h
 
 ID = "C17"
-TECHNIQUE = 'runtime monitoring - garbage-collector oracle over dumps before/after each pass with an injected clock (must go / must stay / free classes of expiration values), orphan rows / index keys, passes on a busy connection pool, the real periodic collector with a failing pass'
+TECHNIQUE = 'runtime monitoring - garbage-collector oracle over dumps before/after each pass with an injected clock (must go / must stay / free classes of expiration values), orphan rows / index keys, passes on a busy connection pool, the real periodic collector with a failing pass; end-to-end shard: the real 2 s periodic collector of a multi-worker server (it runs in one elected worker) against ephemeral / expired / expiring / non-collectable events stored through EVERY worker process, then an orderly restart that must lose nothing'
 LEVEL = "exploration"
 RULE = (
     "cases = (backend, store of 15-40 events with kinds {0, 1, 3, 4, 5, 7, 10002, 19999, 20000, 25000, 29999, 30000} and expiration values "
@@ -29,13 +29,14 @@ RULE = (
     "(backend, T, multiset of (kind class, expiration class) in the store)."
 )
 ASSUMPTIONS = [
+    "end-to-end shards: a real gunicorn/uvicorn server process tree started from the tree under test (vf/e2e_launch.py: the repository's run_with_gunicorn / run_with_uvicorn; the SQL schema is made with the repository's metadata.create_all because its alembic env.py does not run with the installed SQLAlchemy; the notifier's fixed TCP port 6000 is replaced by a free port), spoken to over loopback TCP with the websockets client; real time, real sleeps",
     "clock injected by rebinding storage.db.time / storage.kv.time; collector passes driven by run_once()",
     "an expiration given as a JSON number, or as a string of ASCII digits with leading zeros, is free (may or may not be honoured); "
     "a string with any other character (sign, blank, separator, exponent, fraction, text, empty) is not a well-formed timestamp: the event must stay",
     "LMDB backend over /verif/shim; SQL = SQLite",
 ]
 MIN_NONTRIVIAL = {"quick": 100, "thorough": 1000}
-REQUIRED_COUNTERS = ["clause.must_go", "clause.must_stay", "clause.orphans", "clause.ephemeral_live", "clause.passes_on_busy_pool", "clause.passes_after_fault", "clause.mass_due"]
+REQUIRED_COUNTERS = ["e2e.e2e_collector_judgements", "e2e.e2e_restart_survivors_checked", "clause.must_go", "clause.must_stay", "clause.orphans", "clause.ephemeral_live", "clause.passes_on_busy_pool", "clause.passes_after_fault", "clause.mass_due"]
 SHARD_TIMEOUT = {"quick": 500, "thorough": 3000}
 NOW = gen.T0
 PASSES = [10 ** 9 - 1, 10 ** 9, NOW, 2 ** 31 - 1]
@@ -43,6 +44,18 @@ CANON = re.compile(r"\A(0|[1-9][0-9]*)\Z")
 
 
 def plan(tier, seed):
+    return _plan(tier, seed) + e2e_plan(tier, seed)
+
+
+def e2e_plan(tier, seed):
+    """shards on a REAL server process tree (vf/e2e.py)"""
+    out = [{"mode": "e2e", "e2e": "c17", "backend": "sql", "workers": 2, "seed": seed}, {"mode": "e2e", "e2e": "c17", "backend": "lmdb", "workers": 2, "seed": seed}]
+    if tier == "thorough":
+        out += [{"mode": "e2e", "e2e": "c17", "backend": b, "workers": w, "seed": seed + w} for b in ("sql", "lmdb") for w in (1, 3)]
+    return out
+
+
+def _plan(tier, seed):
     n, stores = (4, 6) if tier == "quick" else (32, 80)
     return [{"backend": b, "case_seed": seed * 7919 + i, "stores": stores} for b in ("sql", "lmdb") for i in range(n)]
 
@@ -413,6 +426,10 @@ async def run_many(backend, stores, counters):
 
 
 def run_shard(spec):
+    if spec.get("mode") == "e2e":
+        from .. import e2e_cases
+
+        return e2e_cases.run_e2e_shard(ID, spec)
     r = random.Random(spec["case_seed"])
     counters = {}
     stores = [gen_store(r) for _ in range(spec["stores"])]
@@ -437,6 +454,10 @@ def run_shard(spec):
 
 
 def replay(rp, spec):
+    if rp.get("mode") == "e2e":
+        from .. import e2e_cases
+
+        return e2e_cases.run_e2e_shard(ID, rp)
     counters = {}
     if rp.get("mode") == "mass":
         v, nt = R.run(run_mass_expiry, rp["backend"], counters, rp["seed"])
